@@ -210,11 +210,11 @@ def build_fn(item, spec, canary, log):
         o = _loop_body_open(mbody, kws[li])
         parts = []
         if lp.get("invariant_except_break"):
-            parts.append("invariant_except_break\n" + "".join("    %s%s,\n" % (MARK % _reg(("loop%d-invariant_except_break" % li, lab, t)), t) for lab, t in lp["invariant_except_break"]))
+            parts.append("invariant_except_break\n" + "".join("    %s%s,\n" % (MARK % _reg(("loop%d-invariant_except_break" % li, c[0], c[1], c[2] if len(c) > 2 else None)), c[1]) for c in lp["invariant_except_break"]))
         if lp.get("invariant"):
-            parts.append("invariant\n" + "".join("    %s%s,\n" % (MARK % _reg(("loop%d-invariant" % li, lab, t)), t) for lab, t in lp["invariant"]))
+            parts.append("invariant\n" + "".join("    %s%s,\n" % (MARK % _reg(("loop%d-invariant" % li, c[0], c[1], c[2] if len(c) > 2 else None)), c[1]) for c in lp["invariant"]))
         if lp.get("ensures"):
-            parts.append("ensures\n" + "".join("    %s%s,\n" % (MARK % _reg(("loop%d-ensures" % li, lab, t)), t) for lab, t in lp["ensures"]))
+            parts.append("ensures\n" + "".join("    %s%s,\n" % (MARK % _reg(("loop%d-ensures" % li, c[0], c[1], c[2] if len(c) > 2 else None)), c[1]) for c in lp["ensures"]))
         if lp.get("decreases"):
             parts.append("decreases %s%s\n" % (MARK % _reg(("loop%d-decreases" % li, "decreases", lp["decreases"])), lp["decreases"]))
         inserts.append((o, "\n" + "".join(parts)))
@@ -355,9 +355,19 @@ def analyse(asm, res):
         site = None
         if kind in ("postcondition", "invariant-preserved", "invariant-entry", "decreases", "invariant"):
             info = _clause_at(asm, prim[0]) if prim else None
+            if kind == "invariant":
+                # `loop invariant not satisfied` at a `continue`: the primary span is the continue statement,
+                # the violated invariant is the secondary span
+                info = None
+                for s_ in sec:
+                    info = _clause_at(asm, s_)
+                    if info:
+                        break
             if info:
                 label, props, clause_text = info[2], info[3], info[4]
-            if sec:
+            if kind == "invariant" and prim:
+                site = {"label": "at this continue", "text": _span_text(prim[0]), "line": pl}
+            elif sec:
                 site = {"label": sec[0].get("label"), "text": _span_text(sec[0]), "line": sec[0]["line_start"]}
         elif kind == "precondition":
             for s in sec:
